@@ -39,6 +39,7 @@ type MBlob struct {
 type MMan struct {
 	data      []byte
 	mts       map[string]bool // every media type it was pushed with (a re-push may or may not replace the recorded type)
+	untyped   bool            // the last push carried no type at all (mt is then one of two equally good readings)
 	mt        string
 	view      manView
 	born      time.Time
@@ -170,6 +171,7 @@ type manVerdict struct {
 	tag    string
 	view   manView
 	loose  string // a looser inconsistency that is logged, not flagged
+	mtAlt  string // pushed without any type (no Content-Type, no mediaType field): the other family's type of the same shape is as good
 }
 
 func normCT(ct string) string {
@@ -249,6 +251,16 @@ func (m *Model) judgeManifestPut(repo, ref, ctype, qdigest string, body []byte, 
 		}
 	}
 	v.mt = mt
+	if ct == "" && view.mt == "" {
+		// nothing was "pushed" as the type: which family the registry settles on (it looks at the types of config and
+		// children) is its business, the shape is not
+		switch mt {
+		case mtOCIIndex:
+			v.mtAlt = mtDockList
+		case mtOCIManifest:
+			v.mtAlt = mtDockManifest
+		}
+	}
 	if !supportedMT(mt) {
 		v.reason = "unsupported or undetectable media type"
 		if ct == "" && view.mt == "" {
@@ -328,6 +340,10 @@ func (m *Model) applyManifestPut(repo string, v manVerdict, body []byte, now tim
 		x.mts[v.mt] = true
 	} else {
 		r.mans[v.digest] = &MMan{data: body, mt: v.mt, mts: map[string]bool{v.mt: true}, view: v.view, born: r.blobs[v.digest].born, acked: now}
+	}
+	r.mans[v.digest].untyped = v.mtAlt != ""
+	if v.mtAlt != "" {
+		r.mans[v.digest].mts[v.mtAlt] = true
 	}
 	delete(r.orphans, v.digest)
 	delete(r.ghosts, v.digest)
